@@ -578,7 +578,6 @@ func worker(args []string) {
 		}()
 	}
 	c.R.Counters["max_worker_wall_s"] = int64(time.Since(wstart).Seconds())
-	c.R.Counters[fmt.Sprintf("max_worker%02d_wall_s", shard)] = int64(time.Since(wstart).Seconds())
 	b, _ := json.Marshal(c.R)
 	os.WriteFile(filepath.Join(dir, "result.json"), b, 0644)
 }
